@@ -643,6 +643,10 @@ def _z3eval(ex, m, args, kwargs, node):
 @fn("z3.is_true", "z3.z3.is_true", tb="TB-z3")
 def _is_true(ex, args, kwargs, node):
     (v,) = args
+    if v.__class__.__name__ == "VZE":
+        from . import zexpr as ZX
+
+        return VBool(ZX.is_true(v.t))
     if isinstance(v, VBool):
         return v
     raise Unsupported("is_true of something other than the value of model.eval")
@@ -1173,3 +1177,42 @@ def _enumerate(ex, args, kwargs, node):
 @fn("builtins.round", tb="TB-py")
 def _round(ex, args, kwargs, node):
     return VFloat()
+
+
+# ---------------------------------------------------------------------------
+# TB-zexpr: z3 expressions as syntax trees (pyvc/zexpr.py) and the IDPool
+# ---------------------------------------------------------------------------
+def _zx():
+    from . import zexpr as ZX
+
+    return ZX
+
+
+def _ze_pred(name):
+    def h(ex, args, kwargs, node):
+        ZX = _zx()
+        (v,) = args
+        if not isinstance(v, ZX.VZE):
+            raise Unsupported(f"{name} of a value that is not a z3 syntax tree")
+        return VBool(getattr(ZX, name)(v.t))
+
+    return h
+
+
+for _n in ("is_not", "is_or", "is_false"):
+    fn(f"z3.{_n}", f"z3.z3.{_n}", tb="TB-zexpr")(_ze_pred(_n))
+
+
+@meth("ZExpr", "children", tb="TB-zexpr")
+def _ze_children(ex, e, args, kwargs, node):
+    ZX = _zx()
+    return VList(ZX.kids(e.t), ZX.TZE)
+
+
+@meth("idpool", "id", tb="TB-zexpr")
+def _pool_id(ex, p, args, kwargs, node):
+    ZX = _zx()
+    (e,) = args
+    if not isinstance(e, ZX.VZE):
+        raise Unsupported("IDPool.id of a value that is not a z3 syntax tree")
+    return VInt(ZX.pid(e.t))
